@@ -372,13 +372,9 @@ package argmapper
 //@   after "outTyp, err := newValueSet" assert [sv-a] allocated(inTyp) && inTyp != nil
 //@   after "outTyp, err := newValueSet" assert [sv-b] imp(numIn(ft) >= 1 && forall(i, int, imp(0 <= i && i < numIn(ft), !isMarkerStruct(inType(ft, i)))), len(inTyp.values) == numIn(ft))
 //@   after "outTyp, err := newValueSet" assert [sv-c] imp(numIn(ft) >= 1 && forall(i, int, imp(0 <= i && i < numIn(ft), !isMarkerStruct(inType(ft, i)))), allocated(inTyp.values))
-//@   after "outTyp, err := newValueSet" assert [sv-d] imp(numIn(ft) >= 1 && forall(i, int, imp(0 <= i && i < numIn(ft), !isMarkerStruct(inType(ft, i)))), forall(i, int, imp(0 <= i && i < numIn(ft), allocated(inTyp.values[i]) && inTyp.values[i] != nil)))
 //@   after "outTyp, err := newValueSet" assert [sv-e] imp(numIn(ft) >= 1 && forall(i, int, imp(0 <= i && i < numIn(ft), !isMarkerStruct(inType(ft, i)))), forall(i, int, imp(0 <= i && i < numIn(ft), inTyp.values[i].Type == inType(ft, i))))
 //@   after "outTyp, err := newValueSet" assert [sv-f] imp(numIn(ft) >= 1 && forall(i, int, imp(0 <= i && i < numIn(ft), !isMarkerStruct(inType(ft, i)))), forall(i, int, imp(0 <= i && i < numIn(ft), allocated(inTyp.values[i].valueInternal))))
-//@   after "outTyp, err := newValueSet" assert [sv-g] imp(numIn(ft) >= 1 && forall(i, int, imp(0 <= i && i < numIn(ft), !isMarkerStruct(inType(ft, i)))), forall(i, int, imp(0 <= i && i < numIn(ft), inTyp.values[i].index == i)))
-//@   after "outTyp, err := newValueSet" assert [sv-h] imp(numIn(ft) >= 1 && forall(i, int, imp(0 <= i && i < numIn(ft), !isMarkerStruct(inType(ft, i)))), forall(i, int, imp(0 <= i && i < numIn(ft), inTyp.values[i].Name == "" && inTyp.values[i].Subtype == "" && !valid(inTyp.values[i].Value))))
 //@   after "outTyp, err := newValueSet" assert [sv-i] imp(numIn(ft) >= 1 && forall(i, int, imp(0 <= i && i < numIn(ft), !isMarkerStruct(inType(ft, i)))), forall(i, int, imp(0 <= i && i < numIn(ft), allocated(inTyp.typedValues) && has(inTyp.typedValues, inType(ft, i)))))
-//@   after "outTyp, err := newValueSet" assert [inputs-survive-2] imp(numIn(ft) >= 1 && forall(i, int, imp(0 <= i && i < numIn(ft), !isMarkerStruct(inType(ft, i)))), liftedL1(inTyp, methodval("reflect.(Type).In", ft), numIn(ft)))
 //@   ensures  [mixed-marker-rejected] imp(numIn(dyntype(f)) > 1 && exists(i, int, 0 <= i && i < numIn(dyntype(f)) && isMarkerStruct(inType(dyntype(f), i))) && f != nil && kindof(dyntype(f)) == 19, result1 != nil)
 //@   ensures  [double-pointer-rejected] imp(f != nil && kindof(dyntype(f)) == 19 && numIn(dyntype(f)) == 1 && isMarkerStruct(inType(dyntype(f), 0)) && ptrDepth(inType(dyntype(f), 0)) > 1, result1 != nil)
 //@   ensures  [outputs-exclude-final-error] imp(result1 == nil && nOutVals(dyntype(f)) == 0, emptyVS(result0.output))
